@@ -90,6 +90,7 @@ template<class T> void vb_ptr_ops(rlbox_sandbox<SBX>& s)
   auto adr = p.copy_and_verify_address([](uintptr_t u) { return u; }); (void)adr;
   auto vv = v.copy_and_verify([](T x) { return x; }); (void)vv;
   auto dv = d.copy_and_verify([](T x) { return x; }); (void)dv;
+  auto vvr = v.copy_and_verify([](const T& x) { return x; }); auto dvr = d.copy_and_verify([](const T& x) { return x; }); (void)vvr; (void)dvr;
   rlbox::memset(s, p, 0, 4u); rlbox::memcpy(s, p, q, 4u); auto h = rlbox::memcmp(s, p, q, 4u); (void)h;
   rlbox::memset(s, p, ti, tul); rlbox::memcpy(s, p, q, tul); rlbox::memcmp(s, p, q, tul);
   T plain[2]{}; rlbox::memcpy(s, p, plain, sizeof(plain)); rlbox::memcmp(s, p, plain, 2u);
@@ -161,6 +162,9 @@ template<class T, size_t N, class I> void vb_arr_idx(rlbox_sandbox<SBX>& s)
   tainted<T[N], SBX> copy = va; va = arr; (void)copy;
   auto cv = arr.copy_and_verify([](std::array<T, N> x) { return x; }); (void)cv;
   auto cvv = va.copy_and_verify([](std::array<T, N> x) { return x; }); (void)cvv;
+  // verifiers that take their argument by reference must still be handed an application-memory snapshot
+  auto cvr = arr.copy_and_verify([](const std::array<T, N>& x) { return x[0]; }); (void)cvr;
+  auto cvvr = va.copy_and_verify([](const std::array<T, N>& x) { return x[0]; }); (void)cvvr;
 }
 template<class T, size_t N> void vb_arr(rlbox_sandbox<SBX>& s)
 {
@@ -207,6 +211,7 @@ void vb_invoke(rlbox_sandbox<SBX>& s)
   tainted<const char*, SBX> t_fs = ps->fs; ps->fs = t_fs; sv.fl = ps->fl; sv.in = ps->in; ps->in = sv.in;
   auto scv = sv.copy_and_verify([](tainted<VbS1, SBX> x) { return x.UNSAFE_unverified(); }); (void)scv;
   auto vcv = vs.copy_and_verify([](tainted<VbS1, SBX> x) { return x.UNSAFE_unverified(); }); (void)vcv;
+  auto vcvr = vs.copy_and_verify([](const tainted<VbS1, SBX>& x) { return x.UNSAFE_unverified(); }); (void)vcvr;
   auto pcv = ps.copy_and_verify([](std::unique_ptr<tainted<VbS1, SBX>> x) { return x != nullptr; }); (void)pcv;
   auto su = sv.UNSAFE_unverified(); auto ss = sv.UNSAFE_sandboxed(s); auto vu = vs.UNSAFE_unverified();
   auto sub = sv.unverified_safe_because("x"); auto sop = sv.to_opaque(); auto sback = from_opaque(sop); (void)su; (void)ss; (void)vu; (void)sub; (void)sback;
